@@ -210,7 +210,10 @@ func genTaints(r *rand.Rand) []corev1.Taint {
 func genTolerations(r *rand.Rand) []corev1.Toleration {
 	var out []corev1.Toleration
 	for n := r.Intn(3); n > 0; n-- {
-		t := corev1.Toleration{Key: pick(r, "dedicated", "gpu", ""), Value: pick(r, "", "x", "y")}
+		// keys of the template's own tolerations include keys of the default DaemonSet tolerations (with
+		// another operator / effect / value): the defaults must still all be added
+		t := corev1.Toleration{Key: pick(r, "dedicated", "gpu", "", "node.kubernetes.io/not-ready", "node.kubernetes.io/unschedulable",
+			"node.kubernetes.io/memory-pressure"), Value: pick(r, "", "x", "y")}
 		t.Operator = pick(r, corev1.TolerationOpExists, corev1.TolerationOpEqual, "")
 		if t.Key == "" {
 			t.Operator = corev1.TolerationOpExists
